@@ -14,6 +14,7 @@
      OBeginLoop    TransformKind::Loop -> lower_relation of a closure whose leaf is the closure parameter (no From)
      OInstance     lower_table_ref for Join / Append of a table, s-string, built-in function or literal
                                                                        [tid.gen, push decl,] create_a_table_instance
+                                                                       (one fresh cid per declared column, duplicates kept)
      ODeclare      declare_as_column                                   short-circuit | alias of a ColumnRef | cid.gen + Compute
      OPush         pipeline.push(Select | Filter | Aggregate | Sort | Take)
      OEndTable     push_select; lower_table_decl (RelationVar)         tid.gen, push decl, restore pipeline
@@ -27,6 +28,27 @@
    table in table_buffer: an instance of a table that is not there is not a step either.
    What the model does NOT know is which columns the resolver lets an expression mention (scoping): visibility
    (clause 2 of rq_wf in its narrow form) is checked per program, not derived from this machine.
+   Mirrors semantic/lowering.rs at /repo HEAD: 3b8ac37 removed itertools::unique from create_a_table_instance (mk_instance
+   below); a131b2a (module / relation variable where a value is required), 7911778 (lookup_cid: compile error instead of
+   panic) and 287b286 (relation literal: compile errors instead of unwrap panics) only turn panics / pass-throughs into
+   `Err` -- in the model those were never steps (the guard), so nothing changes; `in_interpolation` carries no identifier.
+   utils/id_gen.rs (79f4a51): `gen` is still post-increment; ids are N here, so there is no overflow to model on this side
+   (IdGenerator::load, used by the SQL back end on a possibly deserialized RQ, is `idgen_load` at the end of this file).
+
+   Hook `lowerer-op-trace` (120eb8c, cfg prqlc_verif, log lines `verif:lowerer_op {"op":..,"d":..}`) emits, in order, the
+   code-side events that the operations below are made of (the correspondence run is the next round's work):
+     extern {tid,name,columns}            ODeclExtern
+     relation_begin                       pipeline drained: first half of OBegin (after `reserve` when inline) / OBeginLoop
+     reserve {tid}                        OBegin inline=true: tid.gen for the table the sub-pipeline will become
+     leaf {tid,relation}                  SNewLeaf of OBegin / OInstance (s-string, built-in function, literal)
+     instance {node,name,tid,columns}     mk_instance (OBegin, OInstance, OEndInline)
+     push {transform}                     From: end of OBegin; Select/Filter/Aggregate/Sort/Take: OPush;
+                                          Join/Append: end of OInstance / OEndInline
+     declare {node,how,cid|compute}       ODeclare (how = cached | alias | new)
+     relation_end {select,columns}        the `frame` of OEndTable / OEndInline (for a loop: the Select that OEndLoop pops)
+     inline_table {tid}, redirect {pairs} OEndInline (pairs = the HashMap: last pair per key, sorted)
+     table {tid,name,columns}             OEndTable (tid.gen happens here, after the relation was lowered)
+     loop_begin / loop_end                OBeginLoop / OEndLoop
    Executable definitions only; invariants are proved in Proofs/LowererProofs.v. *)
 From Coq Require Import List NArith Bool.
 From PV Require Import Lib.ListX Model.Rq Model.RqWf.
@@ -92,21 +114,23 @@ Definition ostr_eqb (a b : option str) : bool :=
 Definition relcol_eqb (a b : relcol) : bool :=
   match a, b with RSingle x, RSingle y => ostr_eqb x y | RWildcard, RWildcard => true | _, _ => false end.
 
-(* itertools::unique: first occurrences, in order *)
-Fixpoint uniq_from (seen l : list relcol) : list relcol :=
+(* `.collect::<HashMap<RelationColumn, _>>()`: of several pairs with an equal key the LAST one stays
+   (create_a_table_instance builds node_mapping's Input entry this way: when a table declares the same column name --
+   or two unnamed columns -- twice, only the last of them can be looked up by name) *)
+Fixpoint hm_collect (l : list (relcol * cid)) : list (relcol * cid) :=
   match l with
   | [] => []
-  | x :: l' => if existsb (relcol_eqb x) seen then uniq_from seen l' else x :: uniq_from (x :: seen) l'
+  | x :: l' => if existsb (fun y => relcol_eqb (fst x) (fst y)) l' then hm_collect l' else x :: hm_collect l'
   end.
-Definition uniq (l : list relcol) : list relcol := uniq_from [] l.
 
-(* create_a_table_instance: fresh cids for the (unique) columns of table t, remembered under PL node `node` *)
+(* create_a_table_instance: one fresh cid per declared column of table t, duplicates included (since 3b8ac37 the column
+   list is no longer passed through itertools::unique, so the instance lines up, position by position, with the table's
+   closing Select); the instance is remembered under PL node `node` as a map from column to cid *)
 Definition mk_instance (s : lstate) (node : N) (name : option str) (t : tid) (cols : list relcol)
   : table_ref * lstate :=
-  let u := uniq cols in
-  let icols := combine u (seqN (next_cid s) (length u)) in
+  let icols := combine cols (seqN (next_cid s) (length cols)) in
   (mkTRef t icols name,
-   mkL (next_cid s + N.of_nat (length u)) (next_tid s) ((node, MInput icols) :: mapping s) (frames s) (tables s)).
+   mkL (next_cid s + N.of_nat (length cols)) (next_tid s) ((node, MInput (hm_collect icols)) :: mapping s) (frames s) (tables s)).
 
 Definition find_table (ts : list table_decl) (t : tid) : option table_decl :=
   find (fun d => N.eqb (t_id d) t) ts.
@@ -148,8 +172,10 @@ Definition simple (t : transform) : bool :=
 Definition lookup_node (m : list (N * target)) (node : N) : option target :=
   option_map snd (find (fun p => N.eqb (fst p) node) m).
 
+(* `redirects` is a HashMap<CId, CId> collected from zip(closing Select, instance columns): when the closing Select
+   names one id twice the LAST pair stays *)
 Definition redirect_cid (rs : list (cid * cid)) (c : cid) : cid :=
-  match find (fun p => N.eqb (fst p) c) rs with Some p => snd p | None => c end.
+  match find (fun p => N.eqb (fst p) c) (rev rs) with Some p => snd p | None => c end.
 
 Definition redirect_target (rs : list (cid * cid)) (t : target) : target :=
   match t with
@@ -318,3 +344,25 @@ Section Toposort.
   Definition toposort (fuel : nat) (start : nat) : option (list nat) :=
     option_map (@rev nat) (visit fuel [] [] start).
 End Toposort.
+
+(* utils/id_gen.rs, IdGenerator::load (the SQL back end's AnchorContext::of calls it on the RQ it is handed, which may come
+   from JSON): fold `skip` over every cid / table id of the query.  Since 79f4a51 `skip` refuses an id above usize::MAX / 2
+   (error "id .. is too large") instead of computing id + 1 on it -- which overflowed for usize::MAX (panic in debug builds,
+   wrap-around to 0 and colliding ids in release builds).  `max_id` stands for usize::MAX. *)
+Section IdGen.
+  Variable max_id : N.
+
+  Definition idgen_skip (next : N) (id : N) : option N :=
+    if max_id / 2 <? id then None else Some (N.max next (id + 1)).
+
+  Fixpoint idgen_load_from (next : N) (ids : list N) : option N :=
+    match ids with
+    | [] => Some next
+    | id :: ids' => match idgen_skip next id with Some n => idgen_load_from n ids' | None => None end
+    end.
+
+  Definition idgen_load (ids : list N) : option N := idgen_load_from 0 ids.
+
+  (* gen: post-increment *)
+  Definition idgen_gen (next : N) : N * N := (next, next + 1).
+End IdGen.
